@@ -36,7 +36,7 @@ IGNORES = {
 class Opts(object):
     def __init__(self, terms='tok', max_rules=4, shaping=False, priorities=False, acyclic=False, templates=False,
                  ignore=True, term_prio=False, max_alts=3, max_items=3, depth=2, big_rep=False, anon_re=False,
-                 underscore_terms=None, ignore_kinds=None, nonnull=False, unit_bias=False, tok_sets=None, distinct_anon=False, unique_aliases=False):
+                 underscore_terms=None, ignore_kinds=None, nonnull=False, unit_bias=False, tok_sets=None, distinct_anon=False, unique_aliases=False, re_safe=False):
         self.terms = terms; self.max_rules = max_rules; self.shaping = shaping; self.priorities = priorities
         self.acyclic = acyclic; self.templates = templates; self.ignore = ignore; self.term_prio = term_prio
         self.max_alts = max_alts; self.max_items = max_items; self.depth = depth; self.big_rep = big_rep
@@ -44,6 +44,7 @@ class Opts(object):
         self.underscore_terms = shaping if underscore_terms is None else underscore_terms
         self.ignore_kinds = ignore_kinds
         self.tok_sets = tok_sets
+        self.re_safe = re_safe     # only regexps whose every match length is found by lark's dynamic_complete truncation (no unsorted alternation)
         self.unique_aliases = unique_aliases   # an alias name is used by one rule only
         self.distinct_anon = distinct_anon   # anonymous literals never spell a named terminal (taken from the unused part of the prefix-free set)
         self.unit_bias = unit_bias  # many alternatives that are a single reference to a higher-ranked rule (unit chains)
@@ -70,7 +71,11 @@ def grammars(draw, o):
         vals = draw(st.lists(st.sampled_from(OVL_VALUES), min_size=nt, max_size=nt, unique=True))
         pats = [({'kind': 'str', 'value': v, 'flags': ''}, [v]) for v in vals]
     else:
-        idx = draw(st.lists(st.integers(0, len(RE_FAMILY) + len(OVL_VALUES) - 1), min_size=nt, max_size=nt, unique=True))
+        if o.re_safe:
+            safe = [k for k, (r, f, e) in enumerate(RE_FAMILY) if r in (r'a+', r'[ab]+', r'(ab)+', r'b+c?', r'c+', r'[a-c]', r'a*b', r'[ab]{1,2}', r'(a|b)c*')]
+            idx = draw(st.lists(st.sampled_from(safe + list(range(len(RE_FAMILY), len(RE_FAMILY) + len(OVL_VALUES)))), min_size=nt, max_size=nt, unique=True))
+        else:
+            idx = draw(st.lists(st.integers(0, len(RE_FAMILY) + len(OVL_VALUES) - 1), min_size=nt, max_size=nt, unique=True))
         pats = []
         for k in idx:
             if k < len(RE_FAMILY):
